@@ -193,10 +193,18 @@ func randRecord(r *rand.Rand, v6 bool) (entities.Record, recAbs) {
 		elems = append(elems, entities.NewUnsigned64InfoElement(ie(n, registry.IANAReversedEnterpriseID), uint64(v)))
 		a.Nums[n] = v
 	}
-	for _, n := range strNames {
+	huge := r.Intn(30) == 0 // a payload beyond 65535 bytes: several long strings in one record
+	for i, n := range strNames {
 		v := ""
 		if r.Intn(4) != 0 {
 			v = fmt.Sprintf("%s-%d", n[:3], r.Intn(1000))
+		}
+		if huge && i < 3 {
+			b := make([]byte, 25000+r.Intn(35000))
+			for j := range b {
+				b[j] = byte('a' + (i+j)%26)
+			}
+			v = string(b)
 		}
 		elems = append(elems, entities.NewStringInfoElement(ie(n, registry.AntreaEnterpriseID), v))
 		a.Strs[n] = v
